@@ -199,6 +199,12 @@ func x2Configs(prop, tier string) []*X2Config {
 			res = append(res, &X2Config{Name: "C07/reload-" + v.n, Cfgs: []PipeCfg{pa, pb}, Depth: depth(7, 9), Cancel: true, Reload: true, Symmetry: true,
 				AdvSteps: []time.Duration{dly / 2, dly}, Drain: true, Props: props("C07")})
 		}
+		// delayed jobs with a store, retention and saves in the history (a save must not touch jobs that still wait)
+		{
+			pc := PipeCfg{Conc: 1, QL: -1, Graph: graphOne, Delay: dly, RetCount: 1}
+			res = append(res, &X2Config{Name: "C07/retention+saves/" + cfgName(pc), Cfgs: []PipeCfg{pc}, Depth: depth(6, 7), Cancel: true, Save: true, Symmetry: false,
+				AdvSteps: []time.Duration{dly / 2, dly}, Drain: true, Props: props("C07")})
+		}
 		// replace without delay
 		for _, conc := range []int{1, 2} {
 			pc := PipeCfg{Conc: conc, QL: 1, Replace: true, Graph: graphOne}
